@@ -67,6 +67,11 @@ package atree
 //@   ensures bd != nil && cleanDigester(bd)
 //@   modifies alloc
 
+//@ # the seed pair given by the caller is the one the circle hash of every later digester uses (C04: digests are a function of key and seed)
+//@ func (bdb *basicDigesterBuilder) SetSeed(k0, k1)  serves C04 C12
+//@   ensures bdb.k0 == k0 && bdb.k1 == k1
+//@   modifies bdb.k0, bdb.k1
+
 //@ func (bdb *basicDigesterBuilder) Digest(hip, value) (d, err)  serves C02 C04 C12 C18
 //@   requires hip != nil
 //@   ensures bdb.k0 == 0 ==> err != nil && isFatal(err)
